@@ -362,6 +362,56 @@ def c09_stage(ctx):
     return st.done()
 
 
+def c09_agent_postprocess(ctx, res, workdir):
+    """Ordering monitor over the time-stamped thread logs of the agent run by `hx c09agent`."""
+    bf = os.path.join(workdir, 'agent-base.txt')
+    if not os.path.exists(bf):
+        res['harness_error'] = 'c09agent left no trace information'
+        return res
+    base = open(bf).read().strip()
+    tmpd = os.path.join(base, '.tmp')
+    writes, syncs, renames = [], [], []
+    for fn in sorted(os.listdir(workdir)):
+        if not fn.startswith('agent-trace.'):
+            continue
+        sl, _ = sc.parse_thread_log(os.path.join(workdir, fn))
+        for s in sl:
+            if s.unfinished or s.ret is None or s.t0 is None or s.t1 is None:
+                continue
+            if s.name in ('write', 'pwrite64', 'writev', 'copy_file_range', 'sendfile') and s.ret > 0:
+                for fd, path in sc.fds_of(s.args):
+                    if os.path.dirname(os.path.normpath(path)) == tmpd:
+                        writes.append((os.path.normpath(path), s.t0, s.t1))
+            elif s.name in ('fsync', 'fdatasync') and s.ret == 0:
+                fds = sc.fds_of(s.args)
+                if fds:
+                    syncs.append((os.path.normpath(fds[0][1]), s.t0, s.t1))
+            elif s.name in ('rename', 'renameat', 'renameat2') and s.ret == 0:
+                strs = sc.strings_of(s.args)
+                if len(strs) >= 2:
+                    renames.append((os.path.normpath(strs[0].decode('utf-8', 'replace')), os.path.normpath(strs[1].decode('utf-8', 'replace')), s.t0, s.t1, s.raw[:200]))
+    res['counters'] = res.get('counters') or {}
+    vio = []
+    n = 0
+    for (src, dst, r0, r1, raw) in renames:
+        if os.path.dirname(dst) != base or os.path.dirname(src) != tmpd:
+            continue
+        n += 1
+        ok = False
+        for (p, f0, f1) in syncs:
+            if p == src and f1 <= r0 and not any(wp == src and w1 > f0 and w0 < r0 for (wp, w0, w1) in writes):
+                ok = True
+                break
+        if not ok:
+            vio.append({'rename': raw, 'fsyncs_of_the_file': [(f0, f1) for (p, f0, f1) in syncs if p == src], 'writes_to_the_file': len([1 for (wp, _, _) in writes if wp == src])})
+    res['counters']['agent_renames_onto_final_names'] = n
+    if vio:
+        res['violations'] = (res.get('violations') or []) + [{'sig': 'c09:agent:rename-before-data-durable:login-upgrade',
+            'what': 'the agent renamed a freshly written record onto its final name although no fsync of that file had returned after its last write (%d of %d renames); after a power loss the user\'s acknowledged record can be empty or partial' % (len(vio), n),
+            'case': 'upgrade/up0', 'witness': {'renames': vio[:5]}}]
+    return res
+
+
 def c09_cli_stage(ctx):
     """Command-line operations that create directories: every directory the command created must be durable in its parent
     before the command reports success."""
